@@ -564,9 +564,9 @@ func TestC12_PluginOutputCLI(t *testing.T) {
 	if replayPlugin(t, rec) {
 		return
 	}
-	rp.Check(t, 160, 4000, func(rt *rapid.T) {
+	rp.Check(t, 160, 4000, property(func(rt *rapid.T) {
 		runPluginCase(rt, rec, drawPluginCase(rt, rp.Pick(rt, "mode", "cli", "cli", "cli-signer", "cli-verifier")))
-	})
+	}))
 }
 
 func TestC12_PluginAnswers(t *testing.T) {
@@ -575,7 +575,7 @@ func TestC12_PluginAnswers(t *testing.T) {
 	if rp.ReplayCase(&rc) {
 		return // replayed by TestC12_PluginOutputCLI
 	}
-	rp.Check(t, 3000, 80000, func(rt *rapid.T) {
+	rp.Check(t, 3000, 80000, property(func(rt *rapid.T) {
 		runPluginCase(rt, rec, drawPluginCase(rt, "inproc"))
-	})
+	}))
 }
